@@ -13,7 +13,8 @@ CENSUS = {
     'C11': ['~Peers::get_peers_which_have_timeout', '~Peers::get_peers_which_require_new_state', '~Peers::get_peers_which_require_new_proof',
             '~Peers::get_peers_which_require_more_check_points', '~Peers::get_peers_which_require_more_latest_block_filter_hashes',
             '~Peers::get_all_proved_check_points', '~Peers::get_all_prove_states', '~Peers::find_if_a_header_is_proved',
-            '~Peers::find_header_in_proved_state', '~Peers::get_best_proved_peers'],
+            '~Peers::find_header_in_proved_state', '~Peers::get_best_proved_peers',
+            '~+Peers::mark_fetching_headers_timeout', '~+Peers::mark_fetching_txs_timeout'],
     'C16': ['Storage::add_fetched_header' + S, 'Storage::add_fetched_tx' + S, '<ChainRpcImpl as ChainRpc>::fetch_header',
             '<TransactionRpcImpl as TransactionRpc>::fetch_transaction', 'Storage::get_transaction_with_header',
             '~+Peers::mark_fetching_headers_missing', '~+Peers::mark_fetching_txs_missing', '~+Peers::mark_fetching_headers_timeout',
